@@ -2015,9 +2015,16 @@ class nxm_entry (object):
     if type(self) != type(other): return False
     if self._nxm_type != other._nxm_type: return False
     if self.value != other.value: return False
-    if self.mask != other.mask: return False
+    if self._effective_mask != other._effective_mask: return False
     if self.is_reg != other.is_reg: return False
     return True
+
+  @property
+  def _effective_mask (self):
+    # An all-ones mask means the same as no mask (and is packed that way)
+    if self._mask is not None:
+      if self._mask.count(b'\xff') == self._nxm_length: return None
+    return self.mask
 
   def pack (self, omittable = False, header_only = False):
     h = self._nxm_type << 9
